@@ -28,11 +28,17 @@ impl Store {
         let db = rocksdb::DB::open_default(path)?;
         let mut obligations = HashMap::<_, VecDeque<oneshot::Sender<_>>>::new();
         let (tx, mut rx) = channel(100);
+        #[cfg(hotstuff_verif)]
+        let tap_path = path.to_string();
+        #[cfg(hotstuff_verif)]
+        verif_tap::register(path, Self { channel: tx.clone() });
         tokio::spawn(async move {
             while let Some(command) = rx.recv().await {
                 match command {
                     StoreCommand::Write(key, value) => {
                         let _ = db.put(&key, &value);
+                        #[cfg(hotstuff_verif)]
+                        verif_tap::on_write(&tap_path, &key, &value);
                         if let Some(mut senders) = obligations.remove(&key) {
                             while let Some(s) = senders.pop_front() {
                                 let _ = s.send(Ok(value.clone()));
@@ -89,5 +95,53 @@ impl Store {
         receiver
             .await
             .expect("Failed to receive reply to NotifyRead command from store")
+    }
+}
+
+/// Verification tap (compiled only with `--cfg hotstuff_verif`): lets a simulation harness see
+/// every write at the instant the store task applies it, and obtain a handle to a store that
+/// was created by code it does not control. Observation only.
+#[cfg(hotstuff_verif)]
+pub mod verif_tap {
+    use super::Store;
+    use std::cell::RefCell;
+
+    type WriteTap = Box<dyn Fn(&str, &[u8], &[u8])>;
+
+    thread_local! {
+        static TAP: RefCell<Option<WriteTap>> = RefCell::new(None);
+        static HANDLES: RefCell<Vec<(String, Store)>> = RefCell::new(Vec::new());
+    }
+
+    /// Install (or remove) the write tap of the current thread; also forgets all handles.
+    pub fn install(tap: Option<WriteTap>) {
+        TAP.with(|t| *t.borrow_mut() = tap);
+        HANDLES.with(|h| h.borrow_mut().clear());
+    }
+
+    /// A handle to the store opened on `path` by the current thread (if any).
+    pub fn handle(path: &str) -> Option<Store> {
+        HANDLES.with(|h| {
+            h.borrow()
+                .iter()
+                .rev()
+                .find(|(p, _)| p == path)
+                .map(|(_, s)| s.clone())
+        })
+    }
+
+    pub(crate) fn register(path: &str, store: Store) {
+        let active = TAP.with(|t| t.borrow().is_some());
+        if active {
+            HANDLES.with(|h| h.borrow_mut().push((path.to_string(), store)));
+        }
+    }
+
+    pub(crate) fn on_write(path: &str, key: &[u8], value: &[u8]) {
+        TAP.with(|t| {
+            if let Some(tap) = t.borrow().as_ref() {
+                tap(path, key, value);
+            }
+        });
     }
 }
